@@ -40,6 +40,11 @@ func c08Ring(c *ctx, fn string, box [4]int, in [][][][2]int, st int) [][][][2]in
 	s := float64(c08S) * figScale()
 	b := toBound(box, s)
 	g := mpOf(in, s)
+	if c.rng.Intn(3) == 0 {
+		// every third figure has its rings carved out of one coordinate array, one behind the other (the clip functions use
+		// their input as scratch space; the memory behind a ring is not part of it)
+		g = sharedBuffer(g).(orb.MultiPolygon)
+	}
 	e := clipRingEv{K: "clipring", Fn: fn, Box: box, In: in, St: st, S: c08S}
 	var out orb.MultiPolygon
 	shape := ""
